@@ -22,6 +22,28 @@ func registerModels(e *Engine) {
 	registerRegexp(e)
 	registerStrings(e)
 	registerTime(e)
+	registerContext(e)
+}
+
+const modelPkgPath = "github.com/regclient/regclient/internal/zzmodel"
+
+// toModel redirects a library function to a Go-source model in zzmodel.
+func (e *Engine) toModel(name, model string) {
+	e.on(name, func(fr *Frame, a []Value) Value {
+		pkg := e.Prog.ImportedPackage(modelPkgPath)
+		if pkg == nil || pkg.Func(model) == nil {
+			panic(abort("engine: model function missing: zzmodel." + model))
+		}
+		e.noteUse("model: " + name + " -> zzmodel." + model + " (Go-source model)")
+		return fr.p.call(fr, 0, pkg.Func(model), a)
+	})
+}
+
+func registerContext(e *Engine) {
+	for _, n := range []string{"Background", "WithCancel", "WithCancelCause", "WithDeadline", "WithTimeout", "WithValue", "WithoutCancel", "Cause"} {
+		e.toModel("context."+n, n)
+	}
+	e.toModel("context.TODO", "Background")
 }
 
 func (e *Engine) on(name string, f func(fr *Frame, a []Value) Value) {
@@ -610,6 +632,12 @@ func registerSync(e *Engine) {
 			panic(targetPanic{v: fr.p.mkError(CStr("sync: unlock of unlocked mutex")), pos: fr.posHere()})
 		}
 		*st = smt.I(0)
+		if fr.p.preempt > 0 && len(fr.p.runnable(fr.p.cur)) > 0 {
+			// bounded pre-emption: after an unlock another goroutine may run first
+			if fr.p.yield() {
+				fr.p.preempt--
+			}
+		}
 		return nil
 	})
 	// RWMutex: field 0 = w Mutex (writer held in w.state), field 3 = readerCount (struct{_;v int32})
